@@ -689,7 +689,7 @@ fn gen_literal(u: &mut Src) -> (String, &'static str) {
             }
             (neg(u, s), "integer-literal")
         }
-        11 if u.ratio(1, 40) => {
+        11 if u.ratio(1, 150) => {
             // more significant digits than jq mode's rendered-mantissa cap (100 000): a tiny
             // halfway point, >100 000 zeros, a final 1, and an exponent marker so that the
             // scientific (capped) rendering is chosen
@@ -962,6 +962,13 @@ fn replay_input(v: &Value) -> Option<Fail> {
 
 // ---------------------------------------------------------------- run
 
+/// class guards only make sense for a generated search (not under `vh replay`)
+fn req(cx: &mut Ctx, sub: &str, class: &str, min: u64) {
+    if cx.replay_entropy.is_none() {
+        cx.require_class(sub, class, min);
+    }
+}
+
 pub fn run(cx: &mut Ctx) {
     cx.assume("trusted base: Rust's str::parse::<f64> is correctly rounded; O-jsonval decides the JSON number grammar; the YAML 1.2 core-schema number rules (10.3.2) are re-implemented in this module");
     cx.assume("equality is numeric equality of doubles (bit equality for non-zero values); the sign of zero is not asserted");
@@ -1001,7 +1008,7 @@ pub fn run(cx: &mut Ctx) {
         },
     );
     for c in ["nontrivial", "random-bits", "subnormal", "zero", "pow10", "pow2", "near-2^53-2^63-2^64", "integer-valued", "short-decimal", "notation-threshold", "f32", "extreme", "window", "whole-number", "scientific-range"] {
-        cx.require_class("float-printers", c, 50);
+        req(cx, "float-printers", c, 50);
     }
 
     cx.check(
@@ -1029,7 +1036,7 @@ pub fn run(cx: &mut Ctx) {
         },
     );
     for c in ["boundary", "beyond-2^53", "near-2^53", "near-max", "near-min", "random"] {
-        cx.require_class("i64-exact", c, 50);
+        req(cx, "i64-exact", c, 50);
     }
 
     cx.check(
@@ -1078,8 +1085,9 @@ pub fn run(cx: &mut Ctx) {
             Ok(())
         },
     );
-    for c in ["nontrivial", "beyond-mantissa-cap", "g-json", "mantissa-exponent", "zero-spelling", "halfway", "exact-expansion", "edge", "zero-runs", "integer-literal", "shortest", "has-exponent", "long>100"] {
-        cx.require_class("literal-printers", c, 50);
+    req(cx, "literal-printers", "beyond-mantissa-cap", 10);
+    for c in ["nontrivial", "g-json", "mantissa-exponent", "zero-spelling", "halfway", "exact-expansion", "edge", "zero-runs", "integer-literal", "shortest", "has-exponent", "long>100"] {
+        req(cx, "literal-printers", c, 50);
     }
 
     if cli::cli_available() {
@@ -1098,7 +1106,7 @@ pub fn run(cx: &mut Ctx) {
                 check_cli_batch(&items)
             },
         );
-        cx.require_class("cli-batches", "batch>=20", 10);
+        req(cx, "cli-batches", "batch>=20", 10);
     } else {
         cx.infra(format!("CLI binary not found at {}", cli::cli_path()));
     }
